@@ -53,6 +53,8 @@ INFEASIBLE = [
     {"guard": '^GraphInitializers\\.(__setitem__|_check_item): (not \\(not value\\.name\\) and key != value\\.name|value\\.name and key != value\\.name)', "via": 'Value\\.name\\.setter', "why": 'the setter stores the new name in self._name before re-keying under the same new name', "requires": ()},
     {"guard": '^GraphInitializers\\.(__setitem__|_check_item): value\\.producer\\(\\) is not None', "via": 'Value\\.name\\.setter', "why": 'an initializer has no producer (C01-R4)', "requires": ()},
     {"guard": '^GraphInitializers\\.(_set_graph|_check_can_set_graph): value\\._graph is not None and value\\._graph is not self\\._graph', "via": 'Value\\.name\\.setter', "why": "the initializer's _graph is the graph whose initializers are re-keyed", "requires": ()},
+    {"guard": "^GraphInitializers\\.(__setitem__|_check_item): key == ''", "via": 'Value\\.name\\.setter', "why": "the setter rejects the empty string for an initializer before anything is written (fix 5006b98)", "requires": ("value == ''",)},
+    {"guard": '^GraphInitializers\\.(__setitem__|_check_item): not isinstance\\(key, str\\)', "via": 'Value\\.name\\.setter', "why": 'the new name is annotated str | None and None is rejected up front; a non-string name is a type-violating call (wrong Python types are outside the property, see NOT_DECIDED)', "requires": ()},
     {"guard": '^Value\\.name\\.setter: ', "via": 'GraphInitializers\\.(__setitem__|_check_item), .*Value\\.name\\.setter|Value\\.name\\.setter, .*GraphInitializers\\.(__setitem__|_check_item), .*Value\\.name\\.setter', "why": "__setitem__ names the value only when it has no name; re-entry of the setter from the setter's own re-keying sees name == key and returns early", "requires": ()},
     {"guard": '^UserDict\\.__delitem__@GraphInitializers: key of `del self\\.data\\[key\\]` absent', "via": 'Value\\.name\\.setter', "why": 'an initializer is stored under its current name (C01-R3d), which is the key popped', "requires": ()},
     {"guard": '^UserDict\\.__delitem__@GraphInitializers: key of `del self\\.data\\[key\\]` absent', "via": 'GraphInitializers\\.__delitem__', "why": '__delitem__ reads self.data[key] (KeyError before any write) before unsetting', "requires": ()},
